@@ -352,7 +352,11 @@ class IPrefix6(IPrefix, IComponent, FlowIPv6):
             raise ValueError(f'invalid prefix length /{netmask} for an IPv6 flow prefix\n  Must be 0 to {IPV6_MAX_PREFIX}')
         if offset < 0 or offset > netmask:
             raise ValueError(f'invalid offset {offset} for an IPv6 flow prefix\n  Must be 0 to the prefix length')
-        packed = bytes([netmask]) + raw[: CIDR.size(netmask)]
+        kept = raw[: CIDR.size(netmask)]
+        if netmask % 8 and kept:
+            # RFC 8956 3.1: the bits after the prefix length are padding and MUST be zero on the wire
+            kept = kept[:-1] + bytes([kept[-1] & (0xFF << (8 - netmask % 8)) & 0xFF])
+        packed = bytes([netmask]) + kept
         return cls(packed, offset)
 
     def pack(self) -> bytes:
